@@ -115,6 +115,10 @@ def run(replay=None):
                 cases.append(('apply', t, n, {'A': rand_matrix(r, t, n), 'v': [sc.rand_scalar(r, t, 'nice') for _ in range(n)], 'exact': False}))
                 cases.append(('compose', t, n, {'A': small_int_matrix(r, t, n), 'B': small_int_matrix(r, t, n), 'exact': True}))
                 cases.append(('compose', t, n, {'A': rand_matrix(r, t, n), 'B': rand_matrix(r, t, n), 'exact': False}))
+                # products with genuinely tiny entries (far below epsilon, far above the subnormal range)
+                tiny = (1e-4, 5e-4) if t == 'f32' else (1e-9, 1e-8)
+                cases.append(('compose', t, n, {'A': [sc.fbits(t, (tiny[0] * (1 + q % 3)) if (q % (n + 2) == 0) else (0.0 if q % (n + 1) != n else 3.0)) for q in range(n * (n + 1))],
+                                                'B': [sc.fbits(t, (tiny[1] * (1 + q % 2)) if (q % (n + 2) == 0) else (0.0 if q % (n + 1) != n else -2.0)) for q in range(n * (n + 1))], 'exact': False}))
                 kk = r.range(2, 4)
                 cases.append(('chain', t, n, {'Ms': [small_int_matrix(r, t, n, 1 if n > 2 else 2) for _ in range(kk)], 'v': [sc.fbits(t, float(r.range(-2, 2))) for _ in range(n)], 'exact': True}))
                 cases.append(('chain', t, n, {'Ms': [rand_matrix(r, t, n) for _ in range(kk)], 'v': [sc.rand_scalar(r, t, 'nice') for _ in range(n)], 'exact': False}))
@@ -250,6 +254,18 @@ def run(replay=None):
                 toks = [sc.fbits(k.tc, float(r.range(-3, 3))) if isinstance(x, int) and nme.count('/') == 1 and nme.split('/')[1].startswith('identity') else x for x in toks]
             coords = [[sc.fbits(k.tc, float(r.range(-4, 4))) if j % 2 == 0 else sc.rand_scalar(r, k.tc, 'nice') for _ in range(k.n)] for _ in range(5)]
             lcases.append((nme, toks, coords))
+        # structured matrices (lower / upper triangular, diagonal, a single off-diagonal entry): a shortcut keyed on the shape of A shows here
+        if nme.count('/') == 1 and nme.split('/')[1].startswith(('identity', 'probe')) and k.n >= 2:
+            for shape in ('lower', 'upper', 'diag', 'single'):
+                rows = []
+                for i_ in range(k.n):
+                    for j_ in range(k.n + 1):
+                        keep = j_ == k.n or {'lower': j_ <= i_, 'upper': j_ >= i_, 'diag': j_ == i_, 'single': j_ == i_ or (i_, j_) == (k.n - 1, 0)}[shape]
+                        rows.append(sc.fbits(k.tc, float(r.range(1, 4)) if keep else 0.0))
+                toks = sc.rand_field(r, nme, data_mode='nice', cfg_mode='nice', ordered=True)
+                toks = rows + toks[len(rows):]
+                coords = [[sc.fbits(k.tc, float(r.range(-4, 4))) for _ in range(k.n)] for _ in range(4)]
+                lcases.append((nme, toks, coords))
     llines = []
     for i, (nme, toks, cs) in enumerate(lcases):
         has_probe = nme.split('/')[-1].startswith('probe')
